@@ -316,14 +316,10 @@ def _inspect(obj, name, parse_original_whitespace, word_wrap):
     #     )
 
     is_function: bool = isfunction(obj)
-    ir: IntermediateRepr = (
-        cdd.docstring.parse.docstring(
-            doc,
-            emit_default_doc=is_function,
-            parse_original_whitespace=parse_original_whitespace,
-        )
-        if doc
-        else {}
+    ir: IntermediateRepr = cdd.docstring.parse.docstring(
+        doc,
+        emit_default_doc=is_function,
+        parse_original_whitespace=parse_original_whitespace,
     )
     if not is_function and "type" in ir:
         del ir["type"]
